@@ -104,6 +104,16 @@ def ser_cases(ctx):
         out.append(random_tree(ctx.rng, ctx.rng.randrange(4)))
     return out
 
+def sizesser_cases(ctx):
+    """the sizes cases in which every declared length is at least 2^32 (so no buffer of a few bytes can hold them)"""
+    import re
+    out = []
+    for c in sizes_cases(ctx):
+        ns = [int(y) for grp in re.findall(r"\((?:bsz|tsz|bszi|tszi)((?: \d+)+)\)", c) for y in grp.split()]
+        if ns and all(n >= 2 ** 32 for n in ns):
+            out.append(c)
+    return out
+
 def sizes_cases(ctx):
     """trees with declared string lengths near 2^61..2^64: partial sums that fit, wrap exactly, wrap by one"""
     rng = ctx.rng
